@@ -360,7 +360,48 @@ func (c *Ctx) c17TypeGainsFields() {
 	}
 }
 
+// c17LiveReload: the package is reloaded WHILE one of its functions is running (from the yield hook reached through
+// time.Sleep, as a live-coding host does). From then on the running function reads the re-initialised variables,
+// keeps the variables without initialiser, and its calls run the new code - also when the reload makes the table of
+// globals grow (every version brings fresh literals).
+func (c *Ctx) c17LiveReload() {
+	version := func(k int) fstest.MapFS {
+		var lits []string
+		for j := 0; j < 40; j++ {
+			lits = append(lits, fmt.Sprintf("\"v%d-literal-%d\"", k, j))
+		}
+		src := fmt.Sprintf("package main\n\nimport \"time\"\n\nvar Mode = \"v%d\"\n\nvar ticks int\n\nfunc step() int {\n\treturn %d\n}\n\nfunc pad() []string {\n\treturn []string{%s}\n}\n\nfunc Run(n int) int {\n\tfor i := 0; i < n; i++ {\n\t\ttime.Sleep(0)\n\t\tticks++\n\t\tMode = Mode + \"+\"\n\t\tprintln(Mode, step(), ticks, len(pad()))\n\t}\n\treturn ticks\n}\n", k, k, strings.Join(lits, ", "))
+		return fstest.MapFS{"main/main.go": &fstest.MapFile{Data: []byte(src)}}
+	}
+	var out bytes.Buffer
+	vm := goat.New(goat.WithStdout(&out))
+	if err := vm.Load(version(0), "main"); err != nil {
+		c.Rep.Violate(Violation{Kind: "oracle", Cut: "live-reload", Input: "load version 0", Impl: err.Error(), Oracle: "loads"})
+		return
+	}
+	next, loadErr := 1, ""
+	vm.Set("builtin.__yield", goat.NewFunc(0, 0, func(v *goat.VM) {
+		if err := v.Load(version(next), "main"); err != nil && loadErr == "" {
+			loadErr = err.Error()
+		}
+		next++
+	}))
+	const n = 12
+	rets, err := vm.Call("main.Run", 1, goat.Int(n))
+	var want strings.Builder
+	for i := 1; i <= n; i++ {
+		fmt.Fprintf(&want, "v%d+ %d %d 40\n", i, i, i)
+	}
+	c.Rep.Oracle["live-reload"]++
+	got := out.String()
+	if err != nil || loadErr != "" || len(rets) != 1 || rets[0].Int() != n || got != want.String() {
+		c.Rep.Violate(Violation{Kind: "oracle", Cut: "live-reload", Input: "main.Run(12) sleeps in every iteration; the yield hook loads version k+1 of the package (Mode re-initialised, step() returns k+1, 40 fresh literals)",
+			Impl: fmt.Sprintf("err=%v loadErr=%s rets=%v\n%s", err, loadErr, rets, got), Oracle: want.String()})
+	}
+}
+
 func runC17(c *Ctx) error {
+	c.c17LiveReload()
 	c.c17TypeGainsFields()
 	c.Rep.Rule = "reload: one VM per history; 2..5 versions of a package with 1..5 functions and 1..3 methods whose bodies change, stay the same, appear in a later version or are left out of one; 8..37 steps of Load(version k) / Eval with an explicit import (reload of the current version, also of unchanged source) / capture of a function in a variable, a struct field, a slice element, of a bound method and of a bound method inside a struct field / new instance / call of everything captured and of every function and method by name / creation and formatting of fresh instances of every struct type by the current code / Bump, SetMode, instance Inc / read of the package variables (two without initialiser, two with); distinct = distinct history; non-trivial = at least two loads and one capture"
 	n := 500
